@@ -60,10 +60,11 @@ def save_replay(prop, v, payload):
     return path
 
 def write_evidence(prop, tier, seed, level, coverage, assumptions, wall, nviol):
-    os.makedirs(os.path.join(VERIF, "evidence"), exist_ok=True)
+    evdir = os.environ.get("VERIF_EVIDENCE_DIR") or os.path.join(VERIF, "evidence")   # seed runs write elsewhere
+    os.makedirs(evdir, exist_ok=True)
     ev = {"property_id": prop, "tier": tier, "seed": seed, "level": level, "coverage": coverage,
           "assumptions": assumptions, "wall_s": round(wall, 2), "violations": nviol}
-    path = os.path.join(VERIF, "evidence", f"{prop}.json")
+    path = os.path.join(evdir, f"{prop}.json")
     tmp = path + ".tmp"
     with open(tmp, "w") as fh:
         json.dump(ev, fh, indent=1, default=str)
